@@ -1,4 +1,4 @@
-CONSTANTS GAPSIZES = {1, 2, 3, 4}  GAPS = {0, 1, 2, 3, 4, 5, 8}  MAXE = 5  MAXW = 1  ITERS = 1  KEYS = {0}
+CONSTANTS GAPSIZES = {1, 2, 3, 4}  GAPS = {0, 1, 2, 3, 4, 5, 8}  MAXE = 5  MAXW = 0  ITERS = 1  KEYS = {0}
 SPECIFICATION Spec
 INVARIANTS C14_Session
 CHECK_DEADLOCK FALSE
